@@ -1,4 +1,5 @@
 import ColumnVerif.Model.Wire
+import ColumnVerif.Model.Swap
 import Driver.Util
 /-! `codec` mode: one commit buffer driven through the writer API, read back in every way. -/
 namespace Driver.CodecMode
@@ -51,10 +52,35 @@ def trimR (s : String) : String := (s.dropEndWhile (· == ' ')).toString
 
 structure St where
   buf : Buf := Buf.empty "x"
+  log : Bytes := []          -- plain (decompressed) content of the commit log
 
 def step (st : St) (line : String) : St × String :=
   match words line with
-  | ["new", col] => ({ buf := Buf.empty col }, "ok")
+  | ["new", col] => ({ st with buf := Buf.empty col }, "ok")
+  | ["reset", col] => ({ st with buf := Buf.empty col }, "ok")       -- `Buffer.Reset` of a used buffer
+  | ["swap", c, k, kind, hex] =>
+    match c.toNat?, k.toNat?, parseVal kind hex with
+    | some c, some k, some v =>
+      -- the harness only swaps a 2/4/8-byte op with a value of the same width, or a string op with a string
+      let cur := ((st.buf.secs.filter (fun s => s.chunk = c)).map Sec.ops).flatten[k]?
+      let allowed := match cur, v with
+        | some ⟨_, _, .fixed c1 _⟩, .fixed c2 _ => c1 == c2 && c1 != 0
+        | some ⟨_, _, .str _⟩, .str _ => true
+        | _, _ => false
+      if !allowed then (st, "no-op") else
+      match st.buf.swapAt c k v with
+      | some b => ({ st with buf := b }, "ok")
+      | none => (st, "no-op")
+    | _, _, _ => (st, "bad-op")
+  | ["log-new"] => ({ st with log := [] }, "ok")
+  | ["log-append", c, id] =>
+    match c.toNat?, id.toNat? with
+    | some c, some id => ({ st with log := st.log ++ encCommit ⟨id, c, [st.buf]⟩ }, "ok")
+    | _, _ => (st, "bad-op")
+  | ["log-range"] =>
+    let (cs, err) := rangeLog ⟨st.log, false⟩
+    let shown := cs.map (fun c => s!"id={c.id} chunk={c.chunk} " ++ String.intercalate " ; " (c.updates.map showCommitBuf))
+    (st, s!"log n={cs.length} err={err} " ++ String.intercalate " || " shown)
   | ["put", typ, idx, kind, hex] =>
     match typ.toNat?, idx.toNat?, parseVal kind hex with
     | some t, some i, some v =>
